@@ -320,6 +320,22 @@ class Store:
             del self.model[key]
         return gone
 
+    def worm(self, req):
+        '''dawgie.db.tools.worm.consume(run, target, task, alg, sv, value):
+        None = any; removes every matching prime entry, nothing else'''
+        import dawgie.db.tools.worm as worm
+
+        worm.consume(*req)
+        self.db.open()  # the tool closes the database when it is done
+        if all(x is None for x in req):
+            return []
+        gone = [key for key in self.model
+                if all(e is None or i == e for i, e in zip(
+                    (key[0], key[1], key[2], key[3], key[5], key[7]), req))]
+        for key in gone:
+            del self.model[key]
+        return gone
+
     def reopen(self):
         self.rig.reopen_cycle()
         self.reopens += 1
